@@ -5,6 +5,8 @@ EngineMessageBuilder is compared with the values read directly from the tag obje
 """
 from __future__ import annotations
 
+import gc
+
 from mc import c16_common as cc
 from mc.core import HarnessError
 
@@ -37,6 +39,8 @@ def run(ctx):
     progs = cc.corpus(ctx.quick)
     items = [(lines, r) for lines in progs for r in periods]
     ctx.prove_deterministic(check_program, [items[0], items[81], items[-1]])
+    gc.collect()
+    gc.freeze()              # keep the forked workers from copying the inherited heap on their first collection
     results = ctx.pmap(check_program, items)
     reports = changed = snapshots = nontrivial = tick_exc = 0
     for (lines, r), (viol, stats, nt, te) in zip(items, results):
@@ -55,8 +59,8 @@ def run(ctx):
         evaluations=changed, reports_checked=reports, snapshots_checked=snapshots, distinct_nontrivial=nontrivial,
         programs=len(progs), report_periods=list(periods), horizon=cc.HORIZON, ticks_that_raised=tick_exc,
         kinds_full=cc.KINDS_FULL, kinds_sub=cc.KINDS_SUB if ctx.quick else cc.KINDS_SUB4,
-        bounds="<=2 statements over kinds_full + 3 over kinds_sub, nesting <=2" if ctx.quick else
-               "<=3 statements over kinds_full + 4 over kinds_sub, nesting <=2",
+        bounds="<=2 statements over kinds_full + 3 over kinds_sub, nesting <=2, no empty bodies" if ctx.quick else
+               "<=3 statements over kinds_full + 4 over kinds_sub, nesting <=2, no empty bodies",
         rule="every program of the bounded grammar x every report period is executed once; states = ticks observed; evaluations "
              "= (tag, report interval) pairs in which the visible value changed and whose report was checked; non-trivial = "
              "executions in which a non-clock tag changed its visible value after the first tick because of the program",
